@@ -489,3 +489,216 @@ Proof.
   destruct (H1 s1 H) as [s2 [H2 Hag]]. exists s2. split; [|exact Hag].
   apply findk_find. exact H2.
 Qed.
+
+(* ------------------------------------------------------------------------------------------ *)
+(* E2: the quick program is the full program of the erased tree                                *)
+
+Definition quick_cfg (cm : option (list (Z * Z))) (q : list bool) : wcfg := {| capmap := cm; quick := Some q |}.
+Definition full_cfg (cm : option (list (Z * Z))) : wcfg := {| capmap := cm; quick := None |}.
+(* the writer's decision for a plain capture of group g *)
+Definition quick_keep (cm : option (list (Z * Z))) (q : list bool) (g : Z) : bool :=
+  emit_capture (quick_cfg cm q) g (-1).
+
+Definition opt_ball (f : node -> bool) (no : option node) : bool :=
+  match no with Some x => f x | None => true end.
+
+(* every balancing capture (?<g-u>...) of the tree has its u mapped to a real slot (not -1).
+   The Go writer builds the map as caps[Capnumlist[i]] = i, so its values are never -1
+   (er_capmap_ok_bal_ok below); without this the quick writer would drop a balancing capture
+   (erase_compile_needs_bal_ok). *)
+Fixpoint bal_ok (cm : option (list (Z * Z))) (t : node) : bool :=
+  match t with
+  | NConcat _ l => forallb (bal_ok cm) l
+  | NAlternate _ l => forallb (bal_ok cm) l
+  | NLoop _ _ _ _ r => bal_ok cm r
+  | NCapture _ g u r => ((u =? -1) || negb (map_capnum (full_cfg cm) u =? -1)) && bal_ok cm r
+  | NGroup r => bal_ok cm r
+  | NPosLook _ r => bal_ok cm r
+  | NNegLook _ r => bal_ok cm r
+  | NAtomic r => bal_ok cm r
+  | NBackRefCond _ _ yes no => bal_ok cm yes && opt_ball (bal_ok cm) no
+  | NExprCond _ c yes no => bal_ok cm c && bal_ok cm yes && opt_ball (bal_ok cm) no
+  | _ => true
+  end.
+
+Definition capmap_ok (cm : option (list (Z * Z))) : Prop :=
+  match cm with None => True | Some m => Forall (fun kv => snd kv <> -1) m end.
+
+Lemma er_zassoc_ne k m : Forall (fun kv : Z * Z => snd kv <> -1) m -> zassoc k m 0 <> -1.
+Proof.
+  induction 1 as [|[k' v] m Hv HF IH]; cbn [zassoc]; [lia|].
+  destruct (k =? k'); [exact Hv|exact IH].
+Qed.
+
+Lemma er_capmap_ok_map cm u : capmap_ok cm -> u <> -1 -> map_capnum (full_cfg cm) u <> -1.
+Proof.
+  intros Hok Hu. unfold map_capnum. replace (u =? -1) with false by lia.
+  cbn [capmap full_cfg]. destruct cm as [m|]; [apply er_zassoc_ne; exact Hok|exact Hu].
+Qed.
+
+Lemma er_capmap_ok_bal_ok cm : capmap_ok cm -> forall t, bal_ok cm t = true.
+Proof.
+  intros Hok.
+  induction t as [kd o ch|kd lk o ch m n|o str|o g|an| | | |o l HF|o l HF|lazy o m n r IHr|o g u r IHr
+                 |r IHr|o r IHr|o r IHr|r IHr|o g yes no IHy IHn|o cnd yes no IHc IHy IHn]
+    using node_ind'; cbn [bal_ok]; try reflexivity; try assumption.
+  - apply forallb_forall. intros x Hx. rewrite Forall_forall in HF. exact (HF x Hx).
+  - apply forallb_forall. intros x Hx. rewrite Forall_forall in HF. exact (HF x Hx).
+  - rewrite IHr, andb_true_r. destruct (u =? -1) eqn:Eu; [reflexivity|]. cbn [orb].
+    pose proof (er_capmap_ok_map cm u Hok ltac:(lia)) as Hne.
+    destruct (map_capnum (full_cfg cm) u =? -1) eqn:E; [lia|reflexivity].
+  - rewrite IHy. destruct no as [x|]; cbn [opt_ball opt_all] in *; [exact IHn|reflexivity].
+  - rewrite IHc, IHy. destruct no as [x|]; cbn [opt_ball opt_all] in *; [exact IHn|reflexivity].
+Qed.
+
+Lemma er_map_capnum cm q g : map_capnum (quick_cfg cm q) g = map_capnum (full_cfg cm) g.
+Proof. reflexivity. Qed.
+
+Lemma er_emit_capture_full cm g u : emit_capture (full_cfg cm) g u = true.
+Proof. reflexivity. Qed.
+
+Lemma er_emit_capture_bal cm q g u :
+  (u =? -1) = false -> negb (map_capnum (full_cfg cm) u =? -1) = true ->
+  emit_capture (quick_cfg cm q) g u = true.
+Proof.
+  intros Eu Hb.
+  unfold emit_capture. cbn [quick quick_cfg]. rewrite er_map_capnum. rewrite Hb. reflexivity.
+Qed.
+
+Section E2.
+Variable cm : option (list (Z * Z)).
+Variable q : list bool.
+Notation cq := (quick_cfg cm q).
+Notation cf := (full_cfg cm).
+Notation keep := (quick_keep cm q).
+
+Lemma er_forallb_cons (f : node -> bool) x l :
+  forallb f (x :: l) = true -> f x = true /\ forallb f l = true.
+Proof. cbn [forallb]. intros H. apply andb_prop in H. exact H. Qed.
+
+Theorem erase_csize : forall t, bal_ok cm t = true -> csize cq t = csize cf (erase keep t).
+Proof.
+  induction t as [kd o ch|kd lk o ch m n|o str|o g|an| | | |o l HF|o l HF|lazy o m n r IHr|o g u r IHr
+                 |r IHr|o r IHr|o r IHr|r IHr|o g yes no IHy IHn|o cnd yes no IHc IHy IHn]
+    using node_ind'; intros Hb; cbn [erase]; try reflexivity; cbn [bal_ok] in Hb.
+  - (* NConcat *)
+    rewrite !wr_csize_concat_eq.
+    induction HF as [|x l Hx HF IH]; [reflexivity|].
+    apply er_forallb_cons in Hb. destruct Hb as [Hbx Hbl].
+    cbn [map csize_seq]. rewrite (Hx Hbx), (IH Hbl). reflexivity.
+  - (* NAlternate *)
+    rewrite !wr_csize_alternate_eq.
+    induction HF as [|x l Hx HF IH]; [reflexivity|].
+    apply er_forallb_cons in Hb. destruct Hb as [Hbx Hbl].
+    destruct l as [|y l].
+    + cbn [map csize_alt]. exact (Hx Hbx).
+    + cbn [map] in IH |- *. rewrite !wr_csize_alt_cons2. rewrite (Hx Hbx), (IH Hbl). reflexivity.
+  - cbn [csize]. rewrite (IHr Hb). reflexivity.
+  - (* NCapture *)
+    apply andb_prop in Hb. destruct Hb as [Hbu Hbr].
+    destruct (u =? -1) eqn:Eu; cbn [andb].
+    + assert (u = -1) by lia. subst u.
+      cbn [csize]. fold (keep g).
+      destruct (keep g) eqn:Ek; cbn [negb csize].
+      * rewrite er_emit_capture_full. rewrite (IHr Hbr). reflexivity.
+      * exact (IHr Hbr).
+    + cbn [orb] in Hbu. cbn [csize]. rewrite (er_emit_capture_bal cm q g u Eu Hbu), er_emit_capture_full.
+      rewrite (IHr Hbr). reflexivity.
+  - cbn [csize]. exact (IHr Hb).
+  - cbn [csize]. rewrite (IHr Hb). reflexivity.
+  - cbn [csize]. rewrite (IHr Hb). reflexivity.
+  - cbn [csize]. rewrite (IHr Hb). reflexivity.
+  - apply andb_prop in Hb. destruct Hb as [Hby Hbn].
+    cbn [csize]. rewrite (IHy Hby).
+    destruct no as [x|]; cbn [mask_opt_node opt_all opt_ball] in *; [rewrite (IHn Hbn)|]; reflexivity.
+  - apply andb_prop in Hb. destruct Hb as [Hb Hbn]. apply andb_prop in Hb. destruct Hb as [Hbc Hby].
+    cbn [csize]. rewrite (IHc Hbc), (IHy Hby).
+    destruct no as [x|]; cbn [mask_opt_node opt_all opt_ball] in *; [rewrite (IHn Hbn)|]; reflexivity.
+Qed.
+
+Theorem erase_emit : forall t, bal_ok cm t = true ->
+  forall a tbl, emit cq t a tbl = emit cf (erase keep t) a tbl.
+Proof.
+  induction t as [kd o ch|kd lk o ch m n|o str|o g|an| | | |o l HF|o l HF|lazy o m n r IHr|o g u r IHr
+                 |r IHr|o r IHr|o r IHr|r IHr|o g yes no IHy IHn|o cnd yes no IHc IHy IHn]
+    using node_ind'; intros Hb a tbl; cbn [erase]; try reflexivity; pose proof Hb as Hb0; cbn [bal_ok] in Hb.
+  - (* NConcat *)
+    rewrite !wr_emit_concat_eq. clear Hb0. revert a tbl.
+    induction HF as [|x l Hx HF IH]; intros a tbl; [reflexivity|].
+    apply er_forallb_cons in Hb. destruct Hb as [Hbx Hbl].
+    cbn [map emit_seq]. rewrite (Hx Hbx). destruct (emit cf (erase keep x) a tbl) as [cx t1].
+    rewrite (IH Hbl). reflexivity.
+  - (* NAlternate *)
+    rewrite !wr_emit_alternate_eq.
+    change (NAlternate o (map (erase keep) l)) with (erase keep (NAlternate o l)).
+    rewrite <- (erase_csize (NAlternate o l) Hb0). clear Hb0.
+    generalize (a + csize cq (NAlternate o l)) as lend. intros lend. revert a tbl.
+    induction HF as [|x l Hx HF IH]; intros a tbl; [reflexivity|].
+    apply er_forallb_cons in Hb. destruct Hb as [Hbx Hbl].
+    destruct l as [|y l].
+    + cbn [map emit_alt]. exact (Hx Hbx a tbl).
+    + cbn [map] in IH |- *. rewrite !wr_emit_alt_cons2. rewrite (Hx Hbx).
+      destruct (emit cf (erase keep x) (a + 2) tbl) as [cx t1]. cbv zeta.
+      rewrite (IH Hbl). reflexivity.
+  - cbn [emit]. rewrite (IHr Hb). reflexivity.
+  - (* NCapture *)
+    apply andb_prop in Hb. destruct Hb as [Hbu Hbr].
+    destruct (u =? -1) eqn:Eu; cbn [andb].
+    + assert (u = -1) by lia. subst u.
+      cbn [emit]. fold (keep g).
+      destruct (keep g) eqn:Ek; cbn [negb emit].
+      * rewrite er_emit_capture_full. rewrite (IHr Hbr). reflexivity.
+      * exact (IHr Hbr a tbl).
+    + cbn [orb] in Hbu. cbn [emit]. rewrite (er_emit_capture_bal cm q g u Eu Hbu), er_emit_capture_full.
+      rewrite (IHr Hbr). reflexivity.
+  - cbn [emit]. exact (IHr Hb a tbl).
+  - cbn [emit]. rewrite (IHr Hb). reflexivity.
+  - cbn [emit]. rewrite (IHr Hb). reflexivity.
+  - cbn [emit]. rewrite (IHr Hb). reflexivity.
+  - apply andb_prop in Hb. destruct Hb as [Hby Hbn].
+    cbn [emit]. rewrite (IHy Hby). destruct (emit cf (erase keep yes) (a + 6) tbl) as [cy t1].
+    destruct no as [x|]; cbn [mask_opt_node opt_all opt_ball] in *; [rewrite (IHn Hbn)|]; reflexivity.
+  - apply andb_prop in Hb. destruct Hb as [Hb Hbn]. apply andb_prop in Hb. destruct Hb as [Hbc Hby].
+    cbn [emit]. rewrite (IHc Hbc). destruct (emit cf (erase keep cnd) (a + 4) tbl) as [cc t1].
+    rewrite (IHy Hby). destruct (emit cf (erase keep yes) (a + 4 + zlen cc + 2) t1) as [cy t2].
+    destruct no as [x|]; cbn [mask_opt_node opt_all opt_ball] in *; [rewrite (IHn Hbn)|]; reflexivity.
+Qed.
+
+Theorem erase_compile t : bal_ok cm t = true -> compile cq t = compile cf (erase keep t).
+Proof. intros Hb. unfold compile. rewrite (erase_emit t Hb). reflexivity. Qed.
+
+End E2.
+
+(* with a slot map as the Go writer builds it (no value is -1) no side condition on the tree is left *)
+Corollary erase_compile_capmap_ok cm q t :
+  capmap_ok cm ->
+  compile {| capmap := cm; quick := Some q |} t =
+  compile {| capmap := cm; quick := None |}
+          (erase (fun g => emit_capture {| capmap := cm; quick := Some q |} g (-1)) t).
+Proof. intros Hok. apply (erase_compile cm q t). apply er_capmap_ok_bal_ok. exact Hok. Qed.
+
+(* syntax.Write's quick program *)
+Corollary erase_write_quick cm capsize t :
+  capmap_ok cm ->
+  write_quick cm capsize t =
+  let inuse := slots_in_use (fst (write_full cm t)) capsize in
+  if existsb negb inuse
+  then Some (fst (write_full cm (erase (fun g => emit_capture {| capmap := cm; quick := Some inuse |} g (-1)) t)))
+  else None.
+Proof.
+  intros Hok. unfold write_quick, write_full. cbv zeta.
+  destruct (existsb negb _); [|reflexivity].
+  rewrite (erase_compile_capmap_ok cm _ t Hok). reflexivity.
+Qed.
+
+(* the side condition is needed: a map that sends the u of a balancing capture to -1 makes the
+   quick writer drop that capture, which [erase] (plain captures only) never does *)
+Example erase_compile_needs_bal_ok :
+  let cm := Some [(1, 0); (2, -1)] in
+  let t := NCapture 0 1 2 NEmpty in
+  let keep := fun g => emit_capture {| capmap := cm; quick := Some [false] |} g (-1) in
+  bal_ok cm t = false /\ erase keep t = t /\
+  compile {| capmap := cm; quick := Some [false] |} t = ([Lazybranch; 2; Stop], []) /\
+  compile {| capmap := cm; quick := None |} (erase keep t) =
+    ([Lazybranch; 6; Setmark; Capturemark; 0; -1; Stop], []).
+Proof. vm_compute. repeat split; reflexivity. Qed.
